@@ -209,6 +209,28 @@ Proof.
   - apply Qlt_shift_div_r; [exact Hb|]. nra.
 Qed.
 
+(* any sub-cell offset, negative ones included: |off| < one cell *)
+Lemma i_ok_of_range_signed g p : 3 <= g -> (-1 < p)%Q -> (p < inject_Z g + 1)%Q -> i_ok g (round_half_even p).
+Proof.
+  intros Hg H0 H1. destruct (round_half_even_bound p) as [B1 B2]. unfold i_ok.
+  assert (-1 <= round_half_even p).
+  { apply Zle_of_Qlt1. change (inject_Z (-1)) with (-1)%Q. lra. }
+  assert (round_half_even p <= g + 1).
+  { apply Zle_of_Qlt1. rewrite inject_Z_plus. change (inject_Z 1) with 1%Q. lra. }
+  lia.
+Qed.
+
+Lemma grid_coord_range_signed pos off box g :
+  0 < g -> (0 < box)%Q -> (0 <= pos)%Q -> (pos <= box)%Q -> (- box < off * inject_Z g)%Q -> (off * inject_Z g < box)%Q ->
+  (-1 < grid_coord pos off box g)%Q /\ (grid_coord pos off box g < inject_Z g + 1)%Q.
+Proof.
+  intros Hg Hb H0 H1 Ho Hh. unfold grid_coord.
+  assert (HG : (0 < inject_Z g)%Q) by (change 0%Q with (inject_Z 0); rewrite <- Zlt_Qlt; exact Hg).
+  split.
+  - apply Qlt_shift_div_l; [exact Hb|]. nra.
+  - apply Qlt_shift_div_r; [exact Hb|]. nra.
+Qed.
+
 Lemma grid_coord_range0 pos box g :
   0 < g -> (0 < box)%Q -> (0 <= pos)%Q -> (pos <= box)%Q ->
   (0 <= grid_coord pos 0 box g)%Q /\ (grid_coord pos 0 box g <= inject_Z g)%Q.
